@@ -258,6 +258,9 @@ def cnlMuP (nests : List (CNest α)) (mu : α) (alts : List Int) (V av : Int →
 wholly (alpha = 1) to its nest -/
 def toCNest (m : Nest α) : CNest α := ⟨m.mu, m.alts.map fun i => (i, 1)⟩
 
+/-- the same with an allocation parameter `a i` for alternative `i` (still one nest each) -/
+def toCNestA (a : Int → α) (m : Nest α) : CNest α := ⟨m.mu, m.alts.map fun i => (i, a i)⟩
+
 /-! ## the model functions with their validation (what a call returns or raises) -/
 
 /-- `nested / lognested / nested_mev_mu / lognested_mev_mu` up to the choice of `ln G_i`:
